@@ -82,6 +82,13 @@ func pathCorpus(g *Gen, emit func(string)) {
 			emit(nm)
 		}
 	}
+	// invisible or special leading characters are ordinary file-name bytes: nothing is trimmed
+	for _, pre := range []string{"\xef\xbb\xbf", "\xe2\x80\x8b", " ", "\t", "\x00", "~", "-", "\xc2\xa0"} {
+		for _, rest := range []string{"", "/etc/cron.d/job", "../x", "gen/a.go", "./a", "a", "/", ".."} {
+			emit(pre + rest)
+			emit(rest + pre)
+		}
+	}
 	// random byte strings, biased to path-relevant bytes
 	alphabet := []byte{'/', '.', '.', '/', 'a', 'b', '\\', 0, 0xff, 0xc3, 0x89, ' ', '~', ':'}
 	n := 3000
